@@ -33,6 +33,7 @@ var swaps = map[token.Token][]token.Token{
 
 var gen2 = false
 var gen3 = false
+var gen5 = false
 
 func main() {
 	root := os.Args[1]
@@ -41,6 +42,9 @@ func main() {
 	}
 	if len(os.Args) > 2 && os.Args[2] == "-gen3" {
 		gen3 = true
+	}
+	if len(os.Args) > 2 && os.Args[2] == "-gen5" {
+		gen5 = true
 	}
 	enc := json.NewEncoder(os.Stdout)
 	for _, dir := range []string{".", "internal/parser"} {
@@ -100,6 +104,44 @@ func main() {
 				off := func(p token.Pos) int { return fset.Position(p).Offset }
 				emit := func(p, e token.Pos, nw, op string) {
 					enc.Encode(Mut{File: rel, Func: name, Line: fset.Position(p).Line, Pos: off(p), End: off(e), Old: string(src[off(p):off(e)]), New: nw, Op: op})
+				}
+				if gen5 {
+					// a statement executed twice; a return inserted after a statement (the rest of the block skipped)
+					dup := func(list []ast.Stmt) {
+						for i, st := range list {
+							switch x := st.(type) {
+							case *ast.ExprStmt, *ast.IncDecStmt, *ast.SendStmt:
+								t := string(src[off(st.Pos()):off(st.End())])
+								emit(st.Pos(), st.End(), t+"\n"+t, "duplicate-stmt")
+							case *ast.AssignStmt:
+								if x.Tok != token.DEFINE {
+									t := string(src[off(st.Pos()):off(st.End())])
+									emit(st.Pos(), st.End(), t+"\n"+t, "duplicate-stmt")
+								}
+							}
+							if i+1 < len(list) && fd.Type.Results == nil {
+								if _, isRet := list[i+1].(*ast.ReturnStmt); !isRet {
+									switch st.(type) {
+									case *ast.ExprStmt, *ast.AssignStmt, *ast.IncDecStmt:
+										t := string(src[off(st.Pos()):off(st.End())])
+										emit(st.Pos(), st.End(), t+"\nreturn", "early-return")
+									}
+								}
+							}
+						}
+					}
+					ast.Inspect(fd.Body, func(n ast.Node) bool {
+						switch x := n.(type) {
+						case *ast.BlockStmt:
+							dup(x.List)
+						case *ast.CaseClause:
+							dup(x.Body)
+						case *ast.CommClause:
+							dup(x.Body)
+						}
+						return true
+					})
+					continue
 				}
 				if gen3 {
 					simple := func(st ast.Stmt) bool {
